@@ -746,14 +746,16 @@ OPTS = {
 
 
 @st.composite
-def cases(draw, modes=None, triggers=None, rot=0):
+def cases(draw, modes=None, triggers=None, rot=0, salt=0):
     """triggers: {feature: bool} - which known-finding triggers may be generated; rot rotates the option value lists (the
-    minimal example of a shard then uses another option value than the shard with the same first mode)"""
+    minimal example of a shard then uses another option value than the shard with the same first mode); salt (the shard
+    index) shifts the stream values: Hypothesis starts every shard with the same few simplest choice sequences (all-zero
+    stream), which would otherwise be the same programs in every shard"""
     mode = draw(st.sampled_from(modes or MODES))
     # drawn as "switched off": Hypothesis' first (minimal) example of every shard then has all features ON instead of none
     feat = {f: not draw(st.booleans()) for f in FEATURES[mode]}
     opts = {k: draw(st.sampled_from(v[rot % len(v):] + v[:rot % len(v)])) for k, v in OPTS[mode].items()}
-    stream = draw(st.lists(st.integers(0, 999), min_size=8, max_size=40))
+    stream = [(v + 131 * salt) % 1000 for v in draw(st.lists(st.integers(0, 999), min_size=8, max_size=40))]
     # a trigger is asked for by one draw in four; the request is read off the stream (a separate draw would map many
     # Hypothesis choice sequences to one and the same case, and Hypothesis then produces exact duplicates)
     avoided = []
